@@ -124,6 +124,8 @@ where
         loop {
             match stream {
                 Stream::Lazy(_) => {
+                    #[cfg(terohuttunen_proto_vulcan_verif)]
+                    crate::verif_sim::probe("peek_matured_lazy_head", 0);
                     if let Stream::Lazy(LazyStream(lazy)) = std::mem::replace(stream, Stream::Empty)
                     {
                         *stream = self.engine.step(self, *lazy);
@@ -144,6 +146,8 @@ where
                     *stream = self.engine.step(self, *lazy);
                 }
                 Stream::Unit(a) | Stream::Cons(a, _) => {
+                    #[cfg(terohuttunen_proto_vulcan_verif)]
+                    crate::verif_sim::probe("trunc_committed", 0);
                     *stream = Stream::Unit(a);
                     return stream.head();
                 }
